@@ -115,6 +115,16 @@ def get_mod_nodes_remove_incompatibilities(
 
         # Additionally remove nodes that are deriving the incompatible node
         deriving_nodes = get_incompatibility_deriving_nodes(graph, edge[1], confirmed_nodes, cache=cache)
+
+        # If any of the deriving nodes are in the confirmed nodes, we have an infeasible graph
+        # (mark it between confirmed nodes only, so that the marker is not removed again by a subsequent choice)
+        confirmed_deriving_nodes = deriving_nodes & confirmed_nodes
+        if len(confirmed_deriving_nodes) > 0:
+            removed_nodes |= deriving_nodes
+            removed_nodes -= confirmed_nodes
+            marker_edges = {edge} | {(edge[0], node, 0, edge[-1]) for node in confirmed_deriving_nodes}
+            raise IncompatibilityError('Incompatibility constraint derives from confirmed nodes', marker_edges,
+                                       removed_nodes)
         removed_nodes |= deriving_nodes
 
         # And the nodes that are derived by the deriving nodes
@@ -124,11 +134,6 @@ def get_mod_nodes_remove_incompatibilities(
                                            removed_nodes=removed_nodes, traversed=removed_nodes, cache=cache)
             removed_edges |= deriving_derived_edges
             removed_nodes |= deriving_derived_nodes
-
-        # If any of the deriving nodes are in the confirmed nodes, we have an infeasible graph
-        if len(deriving_nodes & confirmed_nodes) > 0:
-            removed_nodes -= confirmed_nodes
-            raise IncompatibilityError('Incompatibility constraint derives from confirmed nodes', {edge}, removed_nodes)
 
     return removed_nodes
 
